@@ -1,11 +1,525 @@
-// Package c18 - correspondence harness for C18 (stub: not built yet).
+// Package c18 drives the real signer.PluginSigner (Sign and SignBlob) against a scripted
+// plugin.SignPlugin that answers adversarially: envelopes (JWS assembled by hand, COSE
+// through go-cose) over ARBITRARY payload documents signed with real keys of the six key
+// specs, wrong echoes, other formats, broken signatures and chains, and raw-signature
+// answers with mismatching key ids, key specs, chains and signatures.
+// The payload travels to the Lean model as an explicit AST (order and duplicate keys kept)
+// and is rendered to bytes by this package's own serializer (json.go).
 package c18
 
 import (
+	"bytes"
+	"context"
+	"encoding/json"
 	"errors"
+	"fmt"
+	"math/rand"
+	"reflect"
 
+	"github.com/notaryproject/notation-core-go/signature"
+	_ "github.com/notaryproject/notation-core-go/signature/cose"
+	_ "github.com/notaryproject/notation-core-go/signature/jws"
+	"github.com/notaryproject/notation-go"
+	"github.com/notaryproject/notation-go/signer"
 	"github.com/notaryproject/notation-go/xverif/common"
+	pluginfw "github.com/notaryproject/notation-plugin-framework-go/plugin"
+	"github.com/opencontainers/go-digest"
+	ocispec "github.com/opencontainers/image-spec/specs-go/v1"
 )
 
+type Desc struct {
+	MediaType   string      `json:"mediaType"`
+	Digest      string      `json:"digest"`
+	Size        int64       `json:"size"`
+	Annotations [][2]string `json:"annotations"`
+}
+
+type Input struct {
+	Api       string `json:"api"`    // sign | signBlob
+	Cap       string `json:"cap"`    // envelope | raw | both | neither
+	Format    string `json:"format"` // jws | cose
+	Key       string `json:"key"`    // rsa2048 … ec521
+	Req       Desc   `json:"req"`
+	PluginErr string `json:"pluginErr"` // noErr | metadata | describeKey | generate
+	DkKeyIdOk bool   `json:"dkKeyIdOk"`
+	DkKeySpec string `json:"dkKeySpec"`
+	EchoOk    bool   `json:"echoOk"`
+	EnvFmt    string `json:"envFmt"`
+	Garbage   bool   `json:"garbage"`
+	CtypeOk   bool   `json:"ctypeOk"`
+	Payload   JVal   `json:"payload"`
+	GsKeyIdOk bool   `json:"gsKeyIdOk"`
+	GsAlg     string `json:"gsAlg"`
+	SigMode   string `json:"sigMode"` // good | flipped | otherKey | wrongHash | emptySig
+	Chain     string `json:"chain"`   // ok | selfSigned | empty | garbage | otherKey | otherSpec
+	DupKeys   bool   `json:"dupKeys"`
+}
+
+type Obs struct {
+	Outcome   string `json:"outcome"` // sig | err | panic
+	PayloadOk bool   `json:"payloadOk"`
+	LeafOk    bool   `json:"leafOk"`
+}
+
+var keyNames = []string{"rsa2048", "rsa3072", "rsa4096", "ec256", "ec384", "ec521"}
+var specOf = map[string]string{"rsa2048": "RSA-2048", "rsa3072": "RSA-3072", "rsa4096": "RSA-4096", "ec256": "EC-256", "ec384": "EC-384", "ec521": "EC-521"}
+var nextKey = map[string]string{"rsa2048": "rsa3072", "rsa3072": "rsa4096", "rsa4096": "ec256", "ec256": "ec384", "ec384": "ec521", "ec521": "rsa2048"}
+var sigAlgWire = map[string]string{"rsa2048": "RSASSA-PSS-SHA-256", "rsa3072": "RSASSA-PSS-SHA-384", "rsa4096": "RSASSA-PSS-SHA-512",
+	"ec256": "ECDSA-SHA-256", "ec384": "ECDSA-SHA-384", "ec521": "ECDSA-SHA-512"}
+
+func mediaOf(f string) string {
+	if f == "cose" {
+		return common.MediaCOSE
+	}
+	return common.MediaJWS
+}
+
+const keyID = "the-requested-key"
+
+// ---------------------------------------------------------------------------------------
+// scripted plugin
+
+type plug struct {
+	in *Input
+	w  *world
+	r  *rand.Rand
+	// what the plugin produced
+	envelope   []byte
+	payload    []byte
+	leaf       []byte
+	genSigReqs int
+	genEnvReqs int
+}
+
+func (p *plug) GetMetadata(ctx context.Context, req *pluginfw.GetMetadataRequest) (*pluginfw.GetMetadataResponse, error) {
+	if p.in.PluginErr == "metadata" {
+		return nil, errors.New("scripted: get-plugin-metadata fails")
+	}
+	m := &pluginfw.GetMetadataResponse{Name: "scripted", Description: "scripted signing plugin", Version: "1.0.0",
+		URL: "https://example.com/scripted", SupportedContractVersions: []string{pluginfw.ContractVersion}}
+	switch p.in.Cap {
+	case "envelope":
+		m.Capabilities = []pluginfw.Capability{pluginfw.CapabilityEnvelopeGenerator}
+	case "raw":
+		m.Capabilities = []pluginfw.Capability{pluginfw.CapabilitySignatureGenerator}
+	case "both":
+		m.Capabilities = []pluginfw.Capability{pluginfw.CapabilityEnvelopeGenerator, pluginfw.CapabilitySignatureGenerator}
+	default:
+		m.Capabilities = []pluginfw.Capability{pluginfw.CapabilityTrustedIdentityVerifier}
+	}
+	return m, nil
+}
+
+func (p *plug) DescribeKey(ctx context.Context, req *pluginfw.DescribeKeyRequest) (*pluginfw.DescribeKeyResponse, error) {
+	if p.in.PluginErr == "describeKey" {
+		return nil, errors.New("scripted: describe-key fails")
+	}
+	id := req.KeyID
+	if !p.in.DkKeyIdOk {
+		id = pick(p.r, "another-key", "", req.KeyID+" ", "THE-REQUESTED-KEY")
+	}
+	return &pluginfw.DescribeKeyResponse{KeyID: id, KeySpec: pluginfw.KeySpec(p.in.DkKeySpec)}, nil
+}
+
+func (p *plug) chainDER() [][]byte {
+	ks := p.w.keys[p.in.Key]
+	switch p.in.Chain {
+	case "ok":
+		return ks.chainOK
+	case "selfSigned":
+		return ks.chainSelf
+	case "otherKey":
+		return ks.chainOther
+	case "otherSpec":
+		return p.w.keys[nextKey[p.in.Key]].chainOK
+	case "garbage":
+		g := []byte("this is not a certificate")
+		switch p.r.Intn(3) {
+		case 0:
+			return [][]byte{g}
+		case 1:
+			return [][]byte{g, ks.chainOK[1]}
+		default:
+			return [][]byte{ks.chainOK[0], g}
+		}
+	default:
+		return [][]byte{}
+	}
+}
+
+func (p *plug) sign(data []byte) []byte {
+	ks := p.w.keys[p.in.Key]
+	return signWithMode(p.in.SigMode, ks, data)
+}
+
+func (p *plug) GenerateSignature(ctx context.Context, req *pluginfw.GenerateSignatureRequest) (*pluginfw.GenerateSignatureResponse, error) {
+	p.genSigReqs++
+	if p.in.PluginErr == "generate" {
+		return nil, errors.New("scripted: generate-signature fails")
+	}
+	id := req.KeyID
+	if !p.in.GsKeyIdOk {
+		id = pick(p.r, "another-key", "", req.KeyID+"x")
+	}
+	chain := p.chainDER()
+	if len(chain) > 0 {
+		p.leaf = chain[0]
+	}
+	return &pluginfw.GenerateSignatureResponse{KeyID: id, Signature: p.sign(req.Payload),
+		SigningAlgorithm: pluginfw.SignatureAlgorithm(p.in.GsAlg), CertificateChain: chain}, nil
+}
+
+func (p *plug) GenerateEnvelope(ctx context.Context, req *pluginfw.GenerateEnvelopeRequest) (*pluginfw.GenerateEnvelopeResponse, error) {
+	p.genEnvReqs++
+	if p.in.PluginErr == "generate" {
+		return nil, errors.New("scripted: generate-envelope fails")
+	}
+	p.payload = p.in.Payload.Render()
+	cty := req.PayloadType
+	if !p.in.CtypeOk {
+		cty = pick(p.r, "application/vnd.cncf.notary.payload.v2+json", "application/json", "application/vnd.cncf.notary.payload.v1+JSON", "text/plain")
+	}
+	chain := p.chainDER()
+	if len(chain) > 0 {
+		p.leaf = chain[0]
+	}
+	var env []byte
+	var err error
+	if p.in.EnvFmt == "cose" {
+		env, err = buildCOSE(p.payload, cty, p.in.Key, chain, p.sign)
+	} else {
+		env, err = buildJWS(p.payload, cty, p.in.Key, chain, p.sign)
+	}
+	if err != nil {
+		panic(fmt.Sprintf("scripted plugin cannot build its envelope: %v", err))
+	}
+	if p.in.Garbage {
+		switch p.r.Intn(4) {
+		case 0:
+			env = []byte("garbage")
+		case 1:
+			env = env[:len(env)/2]
+		case 2:
+			env = []byte{}
+		default:
+			env = append([]byte{0xff}, env...)
+		}
+	}
+	p.envelope = env
+	typ := req.SignatureEnvelopeType
+	if !p.in.EchoOk {
+		other := common.MediaCOSE
+		if typ == common.MediaCOSE {
+			other = common.MediaJWS
+		}
+		typ = pick(p.r, other, "", typ+" ", "application/JOSE+json", "application/octet-stream")
+	}
+	return &pluginfw.GenerateEnvelopeResponse{SignatureEnvelope: env, SignatureEnvelopeType: typ,
+		Annotations: map[string]string{"scripted": "yes"}}, nil
+}
+
+func (p *plug) VerifySignature(ctx context.Context, req *pluginfw.VerifySignatureRequest) (*pluginfw.VerifySignatureResponse, error) {
+	return nil, errors.New("not a verification plugin")
+}
+
+func pick(r *rand.Rand, xs ...string) string { return xs[r.Intn(len(xs))] }
+
+// ---------------------------------------------------------------------------------------
+// one case
+
+func toOCI(d Desc) ocispec.Descriptor {
+	o := ocispec.Descriptor{MediaType: d.MediaType, Digest: digest.Digest(d.Digest), Size: d.Size}
+	if len(d.Annotations) > 0 {
+		o.Annotations = map[string]string{}
+		for _, kv := range d.Annotations {
+			o.Annotations[kv[0]] = kv[1]
+		}
+	}
+	return o
+}
+
+func runCase(c *common.Ctx, w *world, in *Input) {
+	in.DupKeys = hasDup(in.Payload)
+	p := &plug{in: in, w: w, r: rand.New(rand.NewSource(c.Rand.Int63()))}
+	desc := toOCI(in.Req)
+	opts := notation.SignerSignOptions{SignatureMediaType: mediaOf(in.Format)}
+	var sig []byte
+	var info *signature.SignerInfo
+	var err error
+	panicked := false
+	func() {
+		defer func() {
+			if r := recover(); r != nil {
+				panicked = true
+			}
+		}()
+		ctx := context.Background()
+		if in.Api == "signBlob" {
+			s, e := signer.NewPluginSigner(p, keyID, map[string]string{"k": "v"})
+			if e != nil {
+				panic("harness: NewPluginSigner: " + e.Error())
+			}
+			sig, info, err = s.SignBlob(ctx, func(alg digest.Algorithm) (ocispec.Descriptor, error) { return desc, nil }, opts)
+		} else {
+			var s notation.Signer
+			var e error
+			if p.r.Intn(2) == 0 {
+				s, e = signer.NewFromPlugin(p, keyID, nil)
+			} else {
+				s, e = signer.NewPluginSigner(p, keyID, nil)
+			}
+			if e != nil {
+				panic("harness: NewFromPlugin: " + e.Error())
+			}
+			sig, info, err = s.Sign(ctx, desc, opts)
+		}
+	}()
+	obs := Obs{Outcome: "err"}
+	switch {
+	case panicked:
+		obs.Outcome = "panic"
+	case err == nil:
+		obs.Outcome = "sig"
+		obs.PayloadOk, obs.LeafOk = inspect(in, p, desc, sig, info)
+	}
+	c.Count("outcome=" + obs.Outcome)
+	c.Count(fmt.Sprintf("path=%s/%s/%s %s", in.Cap, in.Api, in.Format, obs.Outcome))
+	c.Count("key=" + in.Key)
+	c.Emit(in, obs)
+}
+
+// inspect re-parses the returned signature independently.
+func inspect(in *Input, p *plug, desc ocispec.Descriptor, sig []byte, info *signature.SignerInfo) (payloadOk, leafOk bool) {
+	env, err := signature.ParseEnvelope(mediaOf(in.Format), sig)
+	if err != nil {
+		return false, false
+	}
+	content, err := env.Content()
+	if err != nil {
+		return false, false
+	}
+	viaRaw := in.Cap == "raw" || in.Cap == "both"
+	if viaRaw {
+		// built locally: the payload must be the canonical payload of the requested descriptor
+		want := common.PayloadFor(ocispec.Descriptor{MediaType: desc.MediaType, Digest: desc.Digest, Size: desc.Size, Annotations: desc.Annotations})
+		var a, b any
+		if json.Unmarshal(want, &a) == nil && json.Unmarshal(content.Payload.Content, &b) == nil {
+			payloadOk = reflect.DeepEqual(a, b) && p.genSigReqs == 1 && p.genEnvReqs == 0
+		}
+	} else {
+		payloadOk = bytes.Equal(sig, p.envelope) && bytes.Equal(content.Payload.Content, p.payload) && p.genEnvReqs == 1 && p.genSigReqs == 0
+	}
+	leafOk = info != nil && len(info.CertificateChain) > 0 && p.leaf != nil && bytes.Equal(info.CertificateChain[0].Raw, p.leaf) &&
+		len(content.SignerInfo.CertificateChain) > 0 && bytes.Equal(content.SignerInfo.CertificateChain[0].Raw, p.leaf)
+	return
+}
+
+// ---------------------------------------------------------------------------------------
+// generator
+
+var mediaTypes = []string{"application/vnd.oci.image.manifest.v1+json", "application/vnd.docker.distribution.manifest.v2+json", "application/octet-stream", "m"}
+var annKeys = []string{"a", "b", "org.opencontainers.image.title", "io.cncf.notary.x", "A"}
+var annVals = []string{"1", "2", "", "x y", "é"}
+
+func genDesc(r *rand.Rand) Desc {
+	d := Desc{MediaType: mediaTypes[r.Intn(len(mediaTypes))], Annotations: [][2]string{}}
+	var b [32]byte
+	r.Read(b[:])
+	d.Digest = fmt.Sprintf("sha256:%x", b)
+	switch r.Intn(6) {
+	case 0:
+		d.Size = 0
+	case 1:
+		d.Size = int64(r.Intn(10))
+	case 2:
+		d.Size = 1<<62 + int64(r.Intn(100))
+	default:
+		d.Size = int64(r.Intn(1 << 30))
+	}
+	n := r.Intn(4)
+	if r.Intn(3) == 0 {
+		n = 0
+	}
+	perm := r.Perm(len(annKeys))
+	for i := 0; i < n; i++ {
+		d.Annotations = append(d.Annotations, [2]string{annKeys[perm[i]], annVals[r.Intn(len(annVals))]})
+	}
+	return d
+}
+
+// base returns a fully benign scenario.
+func base(r *rand.Rand, api, cap_, format, key string) *Input {
+	req := genDesc(r)
+	return &Input{Api: api, Cap: cap_, Format: format, Key: key, Req: req, PluginErr: "noErr",
+		DkKeyIdOk: true, DkKeySpec: specOf[key], EchoOk: true, EnvFmt: format, Garbage: false, CtypeOk: true,
+		Payload: goodPayload(req), GsKeyIdOk: true, GsAlg: sigAlgWire[key], SigMode: "good", Chain: "ok"}
+}
+
+var badKeySpecs = []string{"", "RSA-1024", "rsa-2048", "EC-512", "EC-256 ", "ED25519", "RSA2048", "EC-521\n"}
+var gsAlgs = []string{"", "ECDSA-SHA-256", "RSASSA-PSS-SHA-512", "RSASSA-PKCS1-v1_5-SHA-256", "none", "ES256"}
+var sigModes = []string{"flipped", "otherKey", "wrongHash", "emptySig"}
+var chains = []string{"selfSigned", "empty", "garbage", "otherKey", "otherSpec"}
+
+// cryptoMutation applies one non-payload deviation.
+func cryptoMutation(r *rand.Rand, in *Input) string {
+	switch k := r.Intn(13); k {
+	case 0:
+		in.EchoOk = false
+		return "echo"
+	case 1:
+		if in.EnvFmt == "jws" {
+			in.EnvFmt = "cose"
+		} else {
+			in.EnvFmt = "jws"
+		}
+		return "otherFormat"
+	case 2:
+		in.Garbage = true
+		return "garbage"
+	case 3:
+		in.CtypeOk = false
+		return "ctype"
+	case 4:
+		in.SigMode = sigModes[r.Intn(len(sigModes))]
+		return "sig:" + in.SigMode
+	case 5:
+		in.Chain = chains[r.Intn(len(chains))]
+		return "chain:" + in.Chain
+	case 6:
+		in.DkKeyIdOk = false
+		return "dkKeyId"
+	case 7:
+		in.GsKeyIdOk = false
+		return "gsKeyId"
+	case 8:
+		in.DkKeySpec = badKeySpecs[r.Intn(len(badKeySpecs))]
+		return "dkKeySpec:undecodable"
+	case 9:
+		other := keyNames[r.Intn(len(keyNames))]
+		in.DkKeySpec = specOf[other]
+		return "dkKeySpec:other"
+	case 10:
+		in.GsAlg = gsAlgs[r.Intn(len(gsAlgs))]
+		return "gsAlg"
+	case 11:
+		in.PluginErr = pick(r, "metadata", "describeKey", "generate")
+		return "pluginErr:" + in.PluginErr
+	default:
+		in.Cap = pick(r, "both", "neither", "raw", "envelope")
+		return "cap:" + in.Cap
+	}
+}
+
+// payload mutations that need a request with annotations to bite
+var annotationMutations = map[int]bool{3: true, 4: true, 7: true, 20: true}
+
 // Run generates the cases of C18.
-func Run(c *common.Ctx) error { return errors.New("C18: harness not built yet") }
+func Run(c *common.Ctx) error {
+	w := newWorld(c.CacheDir)
+	r := c.Rand
+	apis := []string{"sign", "signBlob"}
+	formats := []string{"jws", "cose"}
+
+	// 1. the benign scenario and every single deviation, for every api x format x key x capability
+	for _, api := range apis {
+		for _, f := range formats {
+			for _, k := range keyNames {
+				for _, cp := range []string{"envelope", "raw"} {
+					in := base(r, api, cp, f, k)
+					c.Count("gen=benign")
+					runCase(c, w, in)
+					for _, sm := range sigModes {
+						in := base(r, api, cp, f, k)
+						in.SigMode = sm
+						c.Count("gen=sig:" + sm)
+						runCase(c, w, in)
+					}
+					for _, ch := range chains {
+						in := base(r, api, cp, f, k)
+						in.Chain = ch
+						c.Count("gen=chain:" + ch)
+						runCase(c, w, in)
+					}
+					// consistent use of the other key (signature AND chain): a valid answer
+					in = base(r, api, cp, f, k)
+					in.SigMode, in.Chain = "otherKey", "otherKey"
+					c.Count("gen=otherKeyThroughout")
+					runCase(c, w, in)
+					// chain of the next key spec, DescribeKey claiming that spec too
+					in = base(r, api, cp, f, k)
+					in.Chain, in.DkKeySpec = "otherSpec", specOf[nextKey[k]]
+					c.Count("gen=otherSpecConsistentClaim")
+					runCase(c, w, in)
+				}
+			}
+		}
+	}
+	// 2. every payload mutation alone (all keys rotate), then the zero-descriptor corner
+	n := 0
+	for _, f := range formats {
+		for m := 0; m < numPayloadMutations; m++ {
+			reps := 3
+			if c.Thorough() {
+				reps = 12
+			}
+			for rep := 0; rep < reps; rep++ {
+				in := base(r, apis[n%2], "envelope", f, keyNames[n%6])
+				for annotationMutations[m] && len(in.Req.Annotations) < 2 {
+					in = base(r, apis[n%2], "envelope", f, keyNames[n%6])
+				}
+				name := mutatePayload(r, in, m)
+				c.Count("gen=payload:" + name)
+				runCase(c, w, in)
+				n++
+			}
+		}
+	}
+	for _, f := range formats {
+		for _, pl := range []JVal{O(), Null(), O(M("targetArtifact", Null())), O(M("targetArtifact", O())), O(M("TargetArtifact", O()))} {
+			in := base(r, "sign", "envelope", f, "ec256")
+			in.Req = Desc{Annotations: [][2]string{}}
+			in.Payload = pl
+			c.Count("gen=zeroDescriptor")
+			runCase(c, w, in)
+		}
+	}
+	// 3. random combinations
+	total := 3000
+	if c.Thorough() {
+		total = 40000
+	}
+	for c.N() < total {
+		k := keyNames[r.Intn(6)]
+		if r.Intn(3) > 0 { // favour the fast keys, keep all six in play
+			k = pick(r, "ec256", "ec384", "ec521", "rsa2048")
+		}
+		cp := pick(r, "envelope", "envelope", "envelope", "raw", "raw", "both", "neither")
+		in := base(r, apis[r.Intn(2)], cp, formats[r.Intn(2)], k)
+		var tags []string
+		switch r.Intn(10) {
+		case 0, 1, 2, 3, 4: // payload deviations only
+			for j := r.Intn(3) + 1; j > 0; j-- {
+				tags = append(tags, mutatePayload(r, in, r.Intn(numPayloadMutations)))
+			}
+		case 5, 6, 7: // one crypto / protocol deviation
+			tags = append(tags, cryptoMutation(r, in))
+		case 8: // both kinds
+			tags = append(tags, mutatePayload(r, in, r.Intn(numPayloadMutations)), cryptoMutation(r, in))
+		default: // several
+			for j := r.Intn(3) + 2; j > 0; j-- {
+				tags = append(tags, cryptoMutation(r, in))
+			}
+			if r.Intn(2) == 0 {
+				in.Payload = randomJVal(r, 3)
+			}
+		}
+		c.Count(fmt.Sprintf("gen=random(%d deviations)", len(tags)))
+		runCase(c, w, in)
+	}
+	c.Note("scripted plugin.SignPlugin over 2 apis x 2 formats x 6 key specs x {envelope, raw, both, neither}; "+
+		"%d payload mutation kinds (value/type changes, dropped members, annotation edits, extra members at both levels, "+
+		"alternative spellings incl. U+017F/U+212A, duplicate members, null / non-object targets, non-object documents) "+
+		"signed with real keys; JWS envelopes assembled by hand, COSE through go-cose; signature modes %v; chains ok,%v.",
+		numPayloadMutations, sigModes, chains)
+	return nil
+}
